@@ -57,7 +57,7 @@ class C12(Machine):
 
     def plan(self, tier):
         if tier == 'quick':
-            return {'runs': 400, 'budget_s': 420, 'det_runs': 3,
+            return {'runs': 400, 'budget_s': 700, 'det_runs': 3,
                     'run_timeout': 240, 'shrink_s': 200}
         return {'runs': 10000, 'budget_s': 3000, 'det_runs': 5,
                 'run_timeout': 400, 'shrink_s': 300}
